@@ -257,7 +257,9 @@ func (k *collector) judge(c Case, nontrivial bool) {
 	sig, msg := v[:i], v[i+1:]
 	k.mu.Lock()
 	defer k.mu.Unlock()
-	if k.c.Rep.Add(sig, msg, func() string { return ev.WriteReplay(k.c.Prop, sig, map[string]any{"property": k.c.Prop, "case": c, "violation": msg, "signature": sig, "how_to_replay": "./check " + k.c.Prop + " --replay <this file>"}) }) {
+	if k.c.Rep.Add(sig, msg, func() string {
+		return ev.WriteReplay(k.c.Prop, sig, map[string]any{"property": k.c.Prop, "case": c, "violation": msg, "signature": sig, "how_to_replay": "./check " + k.c.Prop + " --replay <this file>"})
+	}) {
 		if len(k.c.Rep.Violations) >= 8 {
 			k.stop.Store(true)
 		}
